@@ -8,8 +8,14 @@ import (
 )
 
 // state builder for the validation harnesses: a real leader, then the environment changes the record
+var vpC04CancelStart func()
+
 func vpC04State() (*vpLeaderScn, string, bool, bool) {
+	startCtx, cancelStart := context.WithCancel(vpRootCtx())
+	vpC04CancelStart = cancelStart
+	vpStartCtx = startCtx
 	s := vpLeadingInstance(vpTimings[0], 0, nil)
+	vpStartCtx = nil
 	s.st.ttl = 0
 	tok := s.e.Token()
 	own := true // does the live record carry this instance's id and current token (as strings)?
@@ -32,6 +38,9 @@ func vpC04State() (*vpLeaderScn, string, bool, bool) {
 		own = false
 	}
 	leader := true
+	if vpChoose("start-ctx", 2) == 1 {
+		vpC04CancelStart() // the context given to Start ends (no Stop call): validation must still demote on failure
+	}
 	if vpChoose("leader", 2) == 1 {
 		s.e.becomeFollower() // demoted by some other path; the local token is still set
 		leader = false
